@@ -90,6 +90,36 @@ func (k checker) afterFailedWrite(glb bool) {
 		}
 		return gltf.WriteText(sc, w)
 	})
+	// a scene the writer rejects after it has written its first model (a later model without a mesh),
+	// then the small scene again
+	if why == "" {
+		write := func(sc gltf.PolyformScene, w io.Writer) error {
+			if glb {
+				return gltf.WriteBinary(sc, w)
+			}
+			return gltf.WriteText(sc, w)
+		}
+		var ref bytes.Buffer
+		if err := write(Build(small), &ref); err == nil {
+			for _, badAt := range []int{1, 2, 0} {
+				rej := Build(big)
+				rej.Models[badAt].Mesh = nil
+				var sink bytes.Buffer
+				rerr := error(nil)
+				if g := core.Guard(func() { rerr = write(rej, &sink) }); g.Crash() {
+					why = fmt.Sprintf("writing a scene whose model %d has no mesh crashed: %s", badAt, g.Msg)
+					break
+				}
+				var got bytes.Buffer
+				gerr := error(nil)
+				g := core.Guard(func() { gerr = write(Build(small), &got) })
+				if g.Panicked || gerr != nil || !bytes.Equal(normExt(got.Bytes()), normExt(ref.Bytes())) {
+					why = fmt.Sprintf("after a scene whose model %d has no mesh (writer answered: %v), the next export of another scene produced %d bytes, before it the same scene produced %d (or other content) %s %v", badAt, rerr, got.Len(), ref.Len(), g.Msg, gerr)
+					break
+				}
+			}
+		}
+	}
 	scope := "files/after-failed-write/" + name
 	if why != "" {
 		k.c.Eval(scope, "mismatch")
